@@ -146,7 +146,7 @@ theorem dra_execCmd {p : Pid} {w : World} (h : DeadRecA p w) (c : Cmd)
       · rename_i hz
         apply dra_block
         have ha := dra_addAwait h (.proc z)
-        refine ⟨dr_modProc_waiters ha.1 z _ (by simpa using hz) (fun _ => ⟨rfl, rfl, rfl⟩), ?_⟩
+        refine ⟨dr_modProc_waiters ha.1 z _ (by simpa using hz) (fun _ => ⟨rfl, rfl, rfl, rfl⟩), ?_⟩
         simpa using ha.2
   all_goals simp only [execCmd]
   all_goals dra_peel2 h 30
